@@ -13,7 +13,8 @@ RULES = {
              "every call that (transitively) mutates the persisted index, the entry counts, the reclamation trackers, sends a deletion request or touches the filesystem must be "
              "dominated by the `checkpoint == true` edge, and in batch_read_for_topic also by an edge on which start_offset is None. Frozen exception classes (position-preserving "
              "re-derivations): stores under `!hydrated_from_index` (hydration from the persisted index), stores under `persisted tail is Some` that fold a tail position into the equal "
-             "sealed-chain position, and the exhausted-block advance (idx+1, 0) under `offset >= block.used`",
+             "sealed-chain position, the exhausted-block advance (idx+1, 0) under `offset >= block.used`, and the consumed-mark of that exhausted block (only while C12.4 holds: marks are "
+             "idempotent, so re-deriving 'all entries of this block were consumed' from the shared cursor changes nothing a consuming read had not already established)",
     "C02.2": "the offset-addressed branch is read-only by type: no RwLock::write on the column state and no DerefMut of its guard in blocks dominated by the start_offset = Some arm",
     "C02.3": "peek = following consuming read (non-interference, locals-only taint from `checkpoint`): every branch whose discriminant depends on `checkpoint` re-joins before any return, "
              "and no local written in such a region (or computed from `checkpoint`) is in the data slice of the returned value",
@@ -75,6 +76,35 @@ def exception_class(body, site, kinds):
     return None
 
 
+_IDEM = {}
+
+
+def mark_exception(facts, body, site, callee, stateful_ok):
+    """A call of set_checkpointed_true that is dominated by `shared cursor offset >= block.used`
+    (and, in the batch path, by the stateful edge) re-derives a fact established by earlier
+    consuming reads (every entry of that block was consumed); it is position-preserving
+    bookkeeping provided marks are idempotent (C12.4)."""
+    if not callee.endswith("BlockStateTracker::set_checkpointed_true"):
+        return None
+    if not stateful_ok:
+        return None
+    if "idem" not in _IDEM:
+        from .c12 import idempotent_marks
+        _IDEM["idem"] = idempotent_marks(facts)
+    if not _IDEM["idem"]:
+        return None
+    for T in all_tests(body):
+        if T.kind == "cmp" and T.op == "Ge":
+            pb = op_place(T.b)
+            if pb and pb["p"] and isinstance(pb["p"][-1], dict) and pb["p"][-1].get("n") == "used" and body.edge_guards(T.true_edge, site.bb):
+                osrc, _, _ = origins(body, T.a)
+                asrc, _, _ = origins(body, site.node["args"][0])
+                if any(o.kind == "field" and o.what == ("wal::runtime::reader::ColReaderInfo", "cur_block_offset") for o in osrc) and \
+                        any(o.kind == "field" and o.what[1] == "id" for o in asrc):
+                    return "exhausted-block mark (idempotent, cursor-justified)"
+    return None
+
+
 def analyse_body(ctx, facts, eff, body, need_stateful, outer_cp=False, outer_st=False, depth=0):
     """Yield effect records of `body`: dict(site, kinds, callee, cp, st, exc)."""
     ctx.saw_body(body)
@@ -92,7 +122,7 @@ def analyse_body(ctx, facts, eff, body, need_stateful, outer_cp=False, outer_st=
             recs.append({"site": site, "kinds": kinds, "callee": callee, "cp": not miss_cp, "st": not miss_st, "exc": None,
                          "inner": inner, "closure": True})
             continue
-        exc = exception_class(body, site, kinds) if callee is None else None
+        exc = exception_class(body, site, kinds) if callee is None else mark_exception(facts, body, site, callee, st)
         recs.append({"site": site, "kinds": kinds, "callee": callee, "cp": cp, "st": st, "exc": exc, "closure": False})
     return recs
 
